@@ -59,6 +59,15 @@ func staticMergeable(fn *ssa.Function) bool {
 				nIf++
 			case *ssa.BinOp, *ssa.Phi, *ssa.Jump, *ssa.Return, *ssa.Field, *ssa.Extract, *ssa.ChangeType,
 				*ssa.DebugRef, *ssa.FieldAddr, *ssa.IndexAddr, *ssa.Index, *ssa.Convert:
+			case *ssa.Alloc:
+				if in.Heap {
+					return false
+				}
+			case *ssa.Store:
+				// only spills of values into the function's own locals
+				if a, ok := in.Addr.(*ssa.Alloc); !ok || a.Heap {
+					return false
+				}
 			case *ssa.UnOp:
 				if in.Op == token.ARROW {
 					return false
@@ -89,6 +98,7 @@ type mframe struct {
 	fn     *ssa.Function
 	env    map[ssa.Value]Value
 	budget *int
+	forked int // nesting of symbolic branches being evaluated on both sides
 }
 
 func (ex *Exec) tryMerged(fn *ssa.Function, args []Value, env []Value) (res Value, ok bool) {
@@ -116,8 +126,9 @@ func (ex *Exec) tryMerged(fn *ssa.Function, args []Value, env []Value) (res Valu
 
 func (ex *Exec) mergedCall(fn *ssa.Function, args []Value, env []Value, budget *int) Value {
 	mf := &mframe{fn: fn, env: make(map[ssa.Value]Value, 16), budget: budget}
-	if len(fn.Locals) > 0 {
-		panic(mergeBail{})
+	for _, l := range fn.Locals {
+		cell := zero(deref(l.Type()))
+		mf.env[l] = &cell
 	}
 	for i, p := range fn.Params {
 		mf.env[p] = args[i]
@@ -178,6 +189,17 @@ func (ex *Exec) mergedBlock(mf *mframe, b, prev *ssa.BasicBlock) Value {
 			ex.steps++
 			switch in := b.Instrs[i].(type) {
 			case *ssa.DebugRef:
+			case *ssa.Alloc:
+				// local cell allocated at call entry; re-zero
+				if mf.forked > 0 {
+					panic(mergeBail{})
+				}
+				*(mf.env[in].(*Value)) = zero(deref(in.Type()))
+			case *ssa.Store:
+				if mf.forked > 0 {
+					panic(mergeBail{})
+				}
+				store(deref(in.Addr.Type()), mf.get(ex, in.Addr).(*Value), mf.get(ex, in.Val))
 			case *ssa.BinOp:
 				mf.env[in] = ex.binop(in.Op, in.X.Type(), in.Y.Type(), mf.get(ex, in.X), mf.get(ex, in.Y))
 			case *ssa.UnOp:
@@ -273,11 +295,13 @@ func (ex *Exec) mergedBlock(mf *mframe, b, prev *ssa.BasicBlock) Value {
 					}
 					// evaluate both sides on copies of the environment
 					save := mf.env
+					mf.forked++
 					mf.env = copyEnv(save)
 					r1 := ex.mergedBlock(mf, b.Succs[0], b)
 					mf.env = copyEnv(save)
 					r2 := ex.mergedBlock(mf, b.Succs[1], b)
 					mf.env = save
+					mf.forked--
 					return ex.mergeResults(mf.fn, c, r1, r2)
 				}
 			case *ssa.Return:
